@@ -17,7 +17,7 @@ MODELLED = ("the validation / mutation order of __iadd__, __isub__, __imul__, __
 OPAQUE_SAFE = ["add_scalar", "add_list", "mul_hist", "div_hist", "fill_str_weight", "fill_wrong_dim", "dtype_complex", "set_freq_wrong_shape", "set_freq_negative", "set_err_negative", "sub_scalar"]
 OPAQUE = ["add_scalar", "add_list", "mul_hist", "div_hist", "mul_list", "merge_zero", "merge_half", "merge_all_gap",
           "fill_str_weight", "fill_wrong_dim", "fill_n_wrong_weights", "fill_n_wrong_cols", "fill_n_strings", "dtype_complex",
-          "bad_axis_merge", "set_freq_wrong_shape", "set_freq_negative", "set_err_negative", "sub_scalar", "normalize_bad_axis"]
+          "bad_axis_merge", "set_freq_wrong_shape", "set_freq_negative", "set_err_negative", "sub_scalar", "normalize_bad_axis", "derive_then_grow"]
 
 def gen(rng, n, tier):
     for i in range(n):
@@ -124,6 +124,15 @@ def _opaque(h, name):
         c = HistogramCollection(h)
         far = float(h.bin_right_edges[-1]) + 3.25 * float(h.bin_widths[-1]) if h.bin_count else 7.5
         c.create("sibling", [far, far + 0.25])
+    elif name == "derive_then_grow":
+        # both a histogram and what was derived from it stay well-formed when either grows afterwards (adaptive bins)
+        if h.ndim < 2 or not h.is_adaptive(): raise ValueError("n/a")
+        p = h.projection(0); q = h.select(1, 0); t = h.projection(1)
+        far = [float(h.get_bin_right_edges(i)[-1]) + 2.25 * float(h.get_bin_widths(i)[-1]) if h.shape[i] else 7.5 for i in range(h.ndim)]
+        t.fill(far[1] + 3.0)
+        h.fill(far)
+        if not (_shapes_ok(p) and _shapes_ok(q) and _shapes_ok(t) and _shapes_ok(h)):
+            raise AssertionError("a derived histogram (or its source) no longer matches its bins")
     elif name == "normalize_bad_axis":
         if h.ndim != 2: raise ValueError("n/a")
         h.partial_normalize(5, inplace=True)
